@@ -60,7 +60,7 @@ func setupNodes() {
 func genNodeOpts() hx.GenOpts {
 	o := hx.GenOpts{MaxEvents: 3, MaxDepth: 2, Attrs: 1, NS: 1, Other: true, TopLevel: true, TextLen: 1}
 	if nd.Tier() > 0 {
-		o.MaxEvents, o.MaxDepth = 5, 3
+		o.MaxEvents, o.MaxDepth = 4, 3
 	}
 	return o
 }
